@@ -211,6 +211,43 @@ __CPROVER_ensures(C07_QUERY_MAPPER(st, inFrame)) /*@C07.query-mapper C05.query-m
 __CPROVER_ensures(C07_QUERY_LIST(st, __CPROVER_old(st->see_list), __CPROVER_old(st->see_list_count), __CPROVER_old(g_led.live), __CPROVER_old(g_led.allocs), __CPROVER_old(g_led.tx_attempts))) /*@C07.query-delivers-all C19.query-ledger C02.query-single*/
 __CPROVER_ensures(ST_SHAPE(st)) /*@C07.query-wf C19.query-wf*/
 ;
+
+/* =============================== C08: large properties ============================================ */
+#define C08_LTR_LEDGER(live0, allocs0, tx0) \
+    (g_led.live == (live0) && g_led.allocs == (allocs0) + 1u && g_led.tx_attempts == (tx0) + (V_ALLOC_OK(allocs0, 0) ? 1u : 0u))
+
+static void sendLargeTlvResponse(lltd_iface_state *st, void *iface_ctx, void *inFrame, const void *data, size_t dataSize, uint16_t dataOffset)
+__CPROVER_requires(PRE_frame(inFrame) && V_RW_OK(st, sizeof(lltd_iface_state)))
+__CPROVER_requires(data == NULL || V_R_OK(data, dataSize))
+__CPROVER_requires(iface_ctx == g_ctx) /*@C17.ctx-passed*/
+__CPROVER_assigns(g_led)
+__CPROVER_ensures(C08_LTR_LEDGER(__CPROVER_old(g_led.live), __CPROVER_old(g_led.allocs), __CPROVER_old(g_led.tx_attempts))) /*@C08.one-response C19.ltr-ledger C02.ltr-single*/
+;
+
+/* a request with sequence number zero is not answered and changes nothing */
+#define C08_SEQ0(st, f, seq0, known0, allocs0, tx0, live0) \
+    (v_be16((const uint8_t *)(f) + 30) != 0 || \
+     ((st)->mapper_seq == (seq0) && (st)->mapper_known == (known0) && g_led.allocs == (allocs0) && g_led.tx_attempts == (tx0) && g_led.live == (live0)))
+#define C08_QLT_STATE(st, f, known0, real0, app0) \
+    (v_be16((const uint8_t *)(f) + 30) == 0 || \
+     ((st)->mapper_seq == v_be16((const uint8_t *)(f) + 30) && (st)->mapper_known == 1 && \
+      ((known0) ? (v_mac_eq((st)->mapper_real.a, (real0).a) && v_mac_eq((st)->mapper_apparent.a, (app0).a)) \
+                : (v_mac_eq((st)->mapper_real.a, (const uint8_t *)(f) + 24) && v_mac_eq((st)->mapper_apparent.a, (const uint8_t *)(f) + 6)))))
+/* at most one response; nothing is retained except a newly cached icon */
+#define C08_QLT_LEDGER(st, tx0, live0, icon0) \
+    (g_led.tx_attempts <= (tx0) + 1u && g_led.live == (live0) + (((icon0) == NULL && (st)->small_icon != NULL) ? 1u : 0u) && \
+     ((icon0) == NULL || (st)->small_icon == (icon0)))
+
+static void parseQueryLargeTlv(void *inFrame, lltd_iface_state *st, void *iface_ctx)
+__CPROVER_requires(PRE_frame(inFrame) && ST_SHAPE(st))
+__CPROVER_requires(iface_ctx == g_ctx) /*@C17.ctx-passed*/
+__CPROVER_assigns(g_led, st->mapper_seq, st->mapper_real, st->mapper_apparent, st->mapper_known, st->small_icon, st->small_icon_size)
+__CPROVER_ensures(C08_SEQ0(st, inFrame, __CPROVER_old(st->mapper_seq), __CPROVER_old(st->mapper_known), __CPROVER_old(g_led.allocs), __CPROVER_old(g_led.tx_attempts), __CPROVER_old(g_led.live))) /*@C08.seq-zero-ignored*/
+__CPROVER_ensures(C08_QLT_STATE(st, inFrame, __CPROVER_old(st->mapper_known), __CPROVER_old(st->mapper_real), __CPROVER_old(st->mapper_apparent))) /*@C08.qlt-state C05.qlt-state*/
+__CPROVER_ensures(C08_QLT_LEDGER(st, __CPROVER_old(g_led.tx_attempts), __CPROVER_old(g_led.live), __CPROVER_old(st->small_icon))) /*@C08.qlt-ledger C19.qlt-ledger C02.qlt-single*/
+__CPROVER_ensures(ST_SHAPE(st)) /*@C08.qlt-wf C19.qlt-wf*/
+;
+
 #include "v_nocheck_pop.h"
 
 #endif
